@@ -224,9 +224,7 @@ func ackSystem(t *testing.T, h *H) {
 				case <-time.After(10 * time.Second):
 				}
 			}
-			m.Close()
-			r.close()
-			time.Sleep(10 * time.Minute)
+			r.shutdown(m)
 		})
 		desc := fmt.Sprintf("transports=%v direction=%s acks=%d midFlightDisconnect=%v", trs, map[bool]string{true: "server->client", false: "client->server"}[dirS2C], k, midDisconnect)
 		h.Eval()
@@ -318,9 +316,7 @@ func ackOffline(t *testing.T, h *H) {
 				case <-time.After(time.Minute):
 				}
 				time.Sleep(5 * time.Second)
-				m.Close()
-				r.close()
-				time.Sleep(10 * time.Minute)
+				r.shutdown(m)
 			})
 			desc := fmt.Sprintf("client not connected, Timeout(1s).Emit with %d attachments, %s", natt, when)
 			h.Eval()
